@@ -503,19 +503,21 @@ def validate(ctx, traces, prop, name="batch"):
 
 
 def first_diff(a, b):
-    """diagnostic only: where do two word lists differ (first deleted / inserted / moved word)"""
-    import difflib
-    wa, wb = [x["w"] for x in a], [x["w"] for x in b]
-    if wa != wb:
-        lost, gained, first = [], [], None
-        for tag, i1, i2, j1, j2 in difflib.SequenceMatcher(None, wa, wb, autojunk=False).get_opcodes():
-            if tag in ("delete", "replace"):
-                lost.extend(wa[i1:i2])
-                if first is None:
-                    first = a[i1]
-            if tag in ("insert", "replace"):
-                gained.extend(wb[j1:j2])
-        return {"lost": lost[:6], "gained": gained[:6], "first_lost_place": first}
+    """diagnostic only: where do two word lists differ (first lost / gained / moved word).
+    Words are compared together with their coarse place, from both ends."""
+    ka = [(x["w"], tuple(x["sec"]), tuple(x["li"]), x["ref"]) for x in a]
+    kb = [(x["w"], tuple(x["sec"]), tuple(x["li"]), x["ref"]) for x in b]
+    if [k[0] for k in ka] != [k[0] for k in kb]:
+        p = 0
+        while p < len(ka) and p < len(kb) and ka[p] == kb[p]:
+            p += 1
+        q = 0
+        while q < len(ka) - p and q < len(kb) - p and ka[len(ka) - 1 - q] == kb[len(kb) - 1 - q]:
+            q += 1
+        lost = a[p:len(a) - q]
+        gained = b[p:len(b) - q]
+        return {"lost": [x["w"] for x in lost][:6], "gained": [x["w"] for x in gained][:6],
+                "first_lost_place": lost[0] if lost else None}
     for x, y in zip(a, b):
         if (x["w"], x["sec"], x["li"], x["ref"]) != (y["w"], y["sec"], y["li"], y["ref"]):
             return {"moved": x["w"], "from": [x["sec"], x["li"], x["ref"]], "to": [y["sec"], y["li"], y["ref"]]}
